@@ -1,4 +1,4 @@
-from . import Units
+from . import Norm, Units
 from ..units import Quantity
 
 class Matter:
@@ -23,13 +23,20 @@ class Matter:
         self.volume = volume
         self.number_density_given = number_density is not None and mass_density is None
 
+    def _mass_fractions(self):
+        # components of a composite are given by their mass fractions
+        return getattr(self, 'norm_type', None)==Norm.MASS_FRACTION
+
     def _norm(self):
       # setup densities of the composite
+        composite_mass = self.composite_mass
+        if self._mass_fractions(): # mass fractions are masses of the components in atomic mass units
+            composite_mass = Quantity(composite_mass, Units.ATOMIC_MASS)
         if self.mass_density and not self.number_density_given:
             self.mass_density.to(Units.MASS_DENSITY)
-            self.number_density = (self.mass_density/self.composite_mass).to(Units.NUMBER_DENSITY)
+            self.number_density = (self.mass_density/composite_mass).to(Units.NUMBER_DENSITY)
         elif self.number_density: # !! number density of a composite, not sum of all its components
-            self.mass_density = (self.number_density*self.composite_mass).to(Units.MASS_DENSITY)
+            self.mass_density = (self.number_density*composite_mass).to(Units.MASS_DENSITY)
             self.number_density.to(Units.NUMBER_DENSITY)
         if self.volume:
             self.mass = (self.mass_density * self.volume).to(Units.MATERIAL_MASS)
@@ -51,9 +58,12 @@ class Matter:
             values = {
                 'proportion': m.proportion
             }
+            amount = m.proportion  # number of components in one formula unit
+            if self._mass_fractions():
+                amount = m.proportion/m.component_mass.value(Units.ATOMIC_MASS)
             if self.number_density:
-                values['n']   = m.proportion*self.number_density
-                values['rho'] = m.proportion*m.component_mass*self.number_density
+                values['n']   = amount*self.number_density
+                values['rho'] = amount*m.component_mass*self.number_density
             if self.volume:
                 values['N'] = values['n']*self.volume
                 values['M'] = values['rho']*self.volume
